@@ -87,7 +87,7 @@ def step (s : St) (ws : List String) : St × String :=
       if !packetsOk pk then (s, "rej parse") else
       match parseRowspec rs with
       | none => (s, "rej rowspec")
-      | some t => ({ s with cache := put s.cache a.toNat b.toNat f t (fnv (if f = 0 then rs else "-")) }, "ok")
+      | some t => ({ s with cache := putCur s.cache a.toNat b.toNat f t (fnv (if f = 0 then rs else "-")) }, "ok")
     | _, _, _ => (s, "rej parse")
   | ["fmt", a] =>
     match parseInt a with
